@@ -132,7 +132,7 @@ def Good (s : St) : Prop :=
   ((s.ws.active = true → s.ws.pat.isSome = true) ∧ (s.running = false → s.ws.active = false)) ∧
     ∀ c ∈ s.chans, GoodChan s.ws c
 
-theorem good_init (proj : List Bool) (pre : List Run) (nums : List Int) : Good (St.init proj pre nums) := by
+theorem good_init (proj : List Bool) (pre : List Run) (nums : List Int) (blocked : List Nat) : Good (St.init proj pre nums blocked) := by
   refine ⟨by simp [St.init], ?_⟩
   intro c hc
   simp only [St.init, List.mem_map] at hc
@@ -321,7 +321,7 @@ theorem startTarget_some (s : St) (path : Option Nat) (l22 off l3 : Bool) (map :
     (h : startTarget s path l22 off l3 map = some r) :
     (l22 || off || l3) = true ∧ (∀ c ∈ s.chans, c.hasWriter = false) ∧
       pathOr path s.ws.base = some r.pid ∧
-      makeDirectory s.dirs r.pid = some r.num ∧ mapOk s map = true := by
+      makeDirectory s.dirs r.pid = some r.num ∧ mapOk s map = true ∧ s.blocked.contains r.pid = false := by
   unfold startTarget at h
   by_cases h1 : (!(l22 || off || l3)) = true
   · rw [if_pos h1] at h; cases h
@@ -339,12 +339,15 @@ theorem startTarget_some (s : St) (path : Option Nat) (l22 off l3 : Bool) (map :
           | none => simp [hp] at h
           | some p =>
             simp only [hp] at h
-            cases hm : makeDirectory s.dirs p with
-            | none => simp [hm] at h
-            | some i =>
+            by_cases h5 : s.blocked.contains p = true
+            · rw [if_pos h5] at h; cases h
+            · rw [if_neg h5] at h
+              cases hm : makeDirectory s.dirs p with
+              | none => simp [hm] at h
+              | some i =>
               simp only [hm, Option.some.injEq] at h
               subst h
-              refine ⟨by cases l22 <;> cases off <;> cases l3 <;> simp_all, ?_, rfl, hm, by simpa using h4⟩
+              refine ⟨by cases l22 <;> cases off <;> cases l3 <;> simp_all, ?_, rfl, hm, by simpa using h4, by simpa using h5⟩
               intro c hc
               simp only [List.any_eq_true, not_exists, not_and, Bool.not_eq_true] at h2
               exact h2 c hc
@@ -403,7 +406,7 @@ theorem good_reqStep (s : St) (r : List Nat) (path : Option Nat) (l22 off l3 : B
         rw [this]; exact ⟨hp, hc⟩
       | false =>
         obtain ⟨run, ht, rfl⟩ := startReq_ok s path l22 off l3 map s' hs
-        obtain ⟨_, hnw, _, _, _⟩ := startTarget_some s path l22 off l3 map run ht
+        obtain ⟨_, hnw, _, _, _, _⟩ := startTarget_some s path l22 off l3 map run ht
         refine ⟨by simp [hr], ?_⟩
         intro c' h'
         simp only [List.mem_map] at h'
@@ -511,20 +514,20 @@ theorem agree_of_good (s : St) (hg : Good s) : Agree s := by
     · rw [if_neg hh] at h; cases h
 
 /-- **C06_agree_invariant**: `Agree` holds after every history, from every configuration. -/
-theorem C06_agree_invariant (proj : List Bool) (pre : List Run) (nums : List Int) (ops : List Op) :
-    Agree (runOps (St.init proj pre nums) ops) :=
-  agree_of_good _ (good_runOps ops _ (good_init proj pre nums))
+theorem C06_agree_invariant (proj : List Bool) (pre : List Run) (nums : List Int) (blocked : List Nat) (ops : List Op) :
+    Agree (runOps (St.init proj pre nums blocked) ops) :=
+  agree_of_good _ (good_runOps ops _ (good_init proj pre nums blocked))
 
 /-- **C06_stored_iff_reported**: after any history, a publication of `counts` records adds to every
 file exactly the records the REPORTED state demands (`expAll`: per eligible channel, enabled type,
 current run directory, iff active and not paused) — nothing more, nothing less, nowhere else. -/
-theorem C06_stored_iff_reported (proj : List Bool) (pre : List Run) (nums : List Int) (ops : List Op) (counts : List Nat)
+theorem C06_stored_iff_reported (proj : List Bool) (pre : List Run) (nums : List Int) (blocked : List Nat) (ops : List Op) (counts : List Nat)
     (k : FKey) :
-    let s := runOps (St.init proj pre nums) ops
+    let s := runOps (St.init proj pre nums blocked) ops
     stored (step s (.pub counts)).1.files k =
       stored s.files k + expAll s.ws 0 (s.chans.map (·.elig)) counts k := by
   intro s
-  have hg : Good s := good_runOps ops _ (good_init proj pre nums)
+  have hg : Good s := good_runOps ops _ (good_init proj pre nums blocked)
   show stored (pubAll 0 s.chans counts s.files).2 k = _
   rw [stored_pubAll, contribAll_eq_expAll s.ws s.chans 0 counts k hg.2]
 
@@ -629,7 +632,7 @@ theorem chk_step_model (o : OSt) (s : St) (op : Op) (hg : Good s) (hs : Sim o s)
           simp only at herr
           subst herr
           obtain ⟨run, ht, rfl⟩ := startReq_ok s path l22 off l3 map s' hs'
-          obtain ⟨_, _, hpath, hmk, _⟩ := startTarget_some s path l22 off l3 map run ht
+          obtain ⟨_, _, hpath, hmk, _, _⟩ := startTarget_some s path l22 off l3 map run ht
           have hfresh := (firstUnused_spec s.dirs run.pid 10000 0 run.num hmk).1
           simp only [obs]
           have hpb : pathOr path o.prev.ws.base = some run.pid := by
@@ -749,9 +752,9 @@ PAUSE before START, START while active, UNPAUSE with labels, malformed requests)
 projector loads, the model's observable behaviour passes the property oracle at every step:
 records are stored exactly as the reported state says, rejected requests change nothing, every
 accepted START reports a fresh run directory under the requested path, STOP leaves no file open. -/
-theorem C06_agree_all_histories (proj : List Bool) (pre : List Run) (nums : List Int) (ops : List Op) :
-    ∃ o', chkRun (OSt.init proj pre) ops (runModel (St.init proj pre nums) ops) = .ok o' := by
-  apply chk_run_model ops _ _ (good_init proj pre nums)
+theorem C06_agree_all_histories (proj : List Bool) (pre : List Run) (nums : List Int) (blocked : List Nat) (ops : List Op) :
+    ∃ o', chkRun (OSt.init proj pre) ops (runModel (St.init proj pre nums blocked) ops) = .ok o' := by
+  apply chk_run_model ops _ _ (good_init proj pre nums blocked)
   refine ⟨rfl, ?_, ?_, rfl⟩
   · show proj.map (fun _ => false) = (proj.map Chan.new).map (·.elig)
     induction proj with
@@ -779,7 +782,7 @@ theorem C06_start_fresh_dir (s s' : St) (r : List Nat) (path : Option Nat) (l22 
     simp [step, hr, reqStep, hk]
   rw [hst] at h
   obtain ⟨run, ht, rfl⟩ := startReq_ok s path l22 off l3 map s' h
-  obtain ⟨_, _, hpath, hmk, _⟩ := startTarget_some s path l22 off l3 map run ht
+  obtain ⟨_, _, hpath, hmk, _, _⟩ := startTarget_some s path l22 off l3 map run ht
   refine ⟨run, rfl, (firstUnused_spec s.dirs run.pid 10000 0 run.num hmk).1, by simp, hpath.symm,
     rfl, rfl, rfl, rfl, rfl, rfl⟩
 
@@ -816,6 +819,29 @@ theorem C06_bad_map_refused (s : St) (r : List Nat) (path : Option Nat) (l22 off
       · split
         · rfl
         · simp [hm]
+  cases hr : s.running with
+  | false => exact step_req_down s r path l22 off l3 map hr
+  | true => simp [step, hr, reqStep, hk, startReq, ht]
+
+/-- **C06_uncreatable_path_refused**: a START whose (explicit or remembered) base path admits no new
+directory is refused from ANY state and changes NOTHING - in particular not the reported base path, so a
+later START without a path still goes where the last accepted START went. -/
+theorem C06_uncreatable_path_refused (s : St) (r : List Nat) (path : Option Nat) (l22 off l3 : Bool) (map : Option Nat)
+    (hk : classify r = .start) (p : Nat) (hp : pathOr path s.ws.base = some p) (hb : s.blocked.contains p = true) :
+    step s (.req r path l22 off l3 map) = (s, true) := by
+  have ht : startTarget s path l22 off l3 map = none := by
+    unfold startTarget
+    split
+    · rfl
+    · split
+      · rfl
+      · split
+        · rfl
+        · split
+          · rfl
+          · rw [hp]
+            show (if s.blocked.contains p = true then none else _) = none
+            rw [if_pos hb]
   cases hr : s.running with
   | false => exact step_req_down s r path l22 off l3 map hr
   | true => simp [step, hr, reqStep, hk, startReq, ht]
@@ -900,6 +926,14 @@ example :
        .req sSTART none true false false none, .pub [4]]
     stored s.files ⟨⟨0, 0⟩, 0, .ljh22⟩ = 1 ∧ stored s.files ⟨⟨0, 1⟩, 0, .ljh22⟩ = 4 ∧ s.ws.pat = some ⟨0, 1⟩ := by
   decide
+
+/-- a refused START below a regular file does not move the base path: the next path-less START writes
+under base 0 again -/
+example :
+    let s := runOps (St.init [false] [] [1] [2])
+      [.req sSTART (some 0) true false false none, .req sSTOP none false false false none,
+       .req sSTART (some 2) true false false none, .req sSTART none true false false none]
+    s.ws.base = some 0 ∧ s.ws.pat = some ⟨0, 1⟩ ∧ s.dirs = [⟨0, 1⟩, ⟨0, 0⟩] := by decide
 
 example : classify [117, 110, 112, 97, 117, 115, 101, 32, 65] = .unpause (some [65]) := by decide
 example : classify (sUNPAUSE ++ [120]) = .unpauseBad := by decide
